@@ -54,7 +54,7 @@ package types
 //@ func types.LoadNodeInformationSetByNodeId
 //@   nopanic[*]
 //@   ensures[* failclosed] err != nil ==> ret == nil
-//@   ensures[* found] err == nil ==> ret != nil && fresh(ret) && forall j int :: 0 <= j && j < len(ret.Nodes) ==>
+//@   ensures[C12,* found] err == nil ==> ret != nil && fresh(ret) && forall j int :: 0 <= j && j < len(ret.Nodes) ==>
 //@   |   ret.Nodes[j] != nil && StHas("nodeinfo", ret.Nodes[j].Id) && ret.Nodes[j].NodeId == nodeid && ret.Nodes[j].WrappingKeyId == ""
 //@   |   && loadedFrom(ret.Nodes[j], StGet("nodeinfo", ret.Nodes[j].Id))
 //@   loop 0 invariant[shape] fresh(nodeInfosToReturn) && 0 <= rangeindex + 1 && nodeInfo != nil && fresh(nodeInfo)
